@@ -33,6 +33,8 @@ ASSUMPTIONS = [
     "decides which stale value is seen",
     "attribute names starting with '_' or colliding with attributes of the ref classes are never generated (the two builds "
     "document different __setattr__ behaviour for them)",
+    "after an operation raises, only the exception type is compared (how far the interrupted update got among independent "
+    "tasks legitimately follows iteration order)",
     "dict insertion order of containers is not compared (two independent tasks may create keys in either order)",
     "zeros of either sign are equal values (Cython float fast paths, see DESIGN 9)",
 ]
@@ -99,7 +101,9 @@ def run_ops(real, ops, tr, tag=""):
             tr.append([tag + W.render_op(op), "exc", "RecursionError"])
             return False
         except Exception as e:
-            tr.append([tag + W.render_op(op), "exc", type(e).__name__, state_of_safe(real)])
+            # the state after a failed update is NOT part of the transcript: which independent tasks ran before the
+            # failing one follows set iteration order (hash seed, and the 32-bit hash of the compiled build)
+            tr.append([tag + W.render_op(op), "exc", type(e).__name__])
             return False
         tr.append([tag + W.render_op(op), "ok", state_of(real)])
     return True
